@@ -770,6 +770,36 @@ def psd_exploration(ctx, exe, entries, by_code, table_fail, guard_vacuous, viol,
                         rgd = dyadic_round(float(rg2 * sc), 16)
                         s = [code, dy(param), 1, [dy(rgd)] * ndim, [], [[dy(1)]]]
                         cases.append([1, ndim, 1, [s], [], [], [Pt(p) for p in pts], []]); meta.append((e, ndim, param, rgd, kind, pts, accepted))
+    # directed: the witness of theorem C03_penta_refuted (7 points with integer mutual distances, range 32), in R^2 and embedded in R^3
+    WPTS = [(25, 0), (7, 24), (-7, 24), (-25, 0), (-7, -24), (7, -24), (0, 0)]
+    WX = [F(5), F(4), F(4), F(5), F(4), F(4), F(8)]
+    pe = by_code.get(21)
+    wcases = []
+    if pe is not None:
+        for nd in (2, 3):
+            if pe['maxdim'] is None or pe['maxdim'] >= nd:
+                wp = [tuple(F(t) for t in p) + (F(0),) * (nd - 2) for p in WPTS]
+                wcases.append([1, nd, 1, [[21, dy(1), 1, [dy(32)] * nd, [], [[dy(1)]]]], [], [], [Pt(p) for p in wp], []])
+    if wcases:
+        cfw = write_cases(ctx, 'penta_witness', wcases)
+        _, imw = run_impl(ctx, exe, cfw)
+        for k, c in enumerate(wcases):
+            ii = imw[k] if k < len(imw) else None
+            if ii is None or ii[0] != 1 or ii[4] == [-1]: continue
+            Kq = [[undy(t) for t in r] for r in ii[4]]
+            q = exact_quad(Kq, WX)
+            ctx.count(sx_str(c), True); ctx.dist('penta_witness')
+            expect = F(-149093, 8192)
+            if q < 0:
+                ctx.psd_found[21] = True
+                viol('Penta:not-psd-in-%dD' % c[1],
+                     "'Penta' is offered in R^%d (getMaxNDim = %s) but is not positive semi-definite: on the 7 points of theorem C03_penta_refuted (integer mutual distances, range 32) "
+                     "x = (5,4,4,5,4,4,8) gives x^T K x = %.9g on the implementation's matrix (exactly %s = %.9g in the Coq model); the closed form of CovPenta.cpp is the one of CovReg1D.cpp"
+                     % (c[1], pe['maxdim'], float(q), expect, float(expect)),
+                     {'case': sx_str(c), 'points': WPTS, 'x': [str(t) for t in WX], 'xKx_exact_on_doubles': str(q), 'xKx_model': str(expect), 'theorem': 'C03_penta_refuted (coq/C03/Properties.v)',
+                      'how': 'Model::addCovFromParam(ECov::PENTA, ranges = 32); K = model.evalCovMatrixSymmetric(db of the 7 points); x^T K x in exact rational arithmetic on the returned doubles'})
+            if abs(q - expect) > F(1, 10 ** 9):
+                viol('closed-form:Penta', 'the Penta matrix of the witness points gives x^T K x = %r on the implementation, %r in the model' % (float(q), float(expect)), {'case': sx_str(c)})
     cf = write_cases(ctx, 'psd', cases)
     _, im = run_impl(ctx, exe, cf, timeout=3000)
     nneg = 0
